@@ -242,6 +242,68 @@ impl Writer for MonWriter {
     }
 }
 
+// ---------------------------------------------------------------- a writer that keeps only the head of what it is given
+
+/// A conforming Writer that stores the first `keep` octets and counts the rest (a writer streaming to a socket or file keeps
+/// no copy either). Appending a slice of several GiB costs nothing, so values far beyond every wire limit can be offered to
+/// the encoder. Positional overwrites inside the kept head are applied, others are recorded.
+pub struct SparseWriter {
+    pub head: Vec<u8>,
+    pub keep: usize,
+    pub total: usize,
+    pub overwrites: Vec<Overwrite>,
+    pub out_of_range: Vec<Overwrite>,
+}
+
+impl SparseWriter {
+    pub fn new(keep: usize) -> Self {
+        SparseWriter { head: Vec::new(), keep, total: 0, overwrites: Vec::new(), out_of_range: Vec::new() }
+    }
+    fn push(&mut self, b: &[u8]) {
+        if self.head.len() < self.keep {
+            let n = (self.keep - self.head.len()).min(b.len());
+            self.head.extend_from_slice(&b[..n]);
+        }
+        self.total += b.len();
+    }
+}
+
+impl Writer for SparseWriter {
+    fn is_empty(&self) -> bool {
+        self.total == 0
+    }
+    fn len(&self) -> usize {
+        self.total
+    }
+    fn write_bytes(&mut self, bytes: &[u8]) {
+        self.push(bytes)
+    }
+    fn write_bytes_at(&mut self, bytes: &[u8], offset: usize) {
+        let ow = Overwrite { offset, len: bytes.len(), writer_len: self.total };
+        match offset.checked_add(bytes.len()) {
+            Some(end) if end <= self.total => {
+                if end <= self.head.len() {
+                    self.head[offset..end].copy_from_slice(bytes);
+                }
+                self.overwrites.push(ow);
+            }
+            _ => self.out_of_range.push(ow),
+        }
+    }
+    fn write_u8(&mut self, value: u8) {
+        self.push(&[value])
+    }
+    fn write_u16_be(&mut self, value: u16) {
+        self.push(&value.to_be_bytes())
+    }
+    fn write_u32_be(&mut self, value: u32) {
+        self.push(&value.to_be_bytes())
+    }
+    fn write_u64_be(&mut self, value: u64) {
+        self.push(&value.to_be_bytes())
+    }
+}
+
 // ---------------------------------------------------------------- a reader whose bytes() may decline
 
 /// The trait lets `bytes(n)` return None (a scatter/gather or ring-buffer reader may hold the octets without being able
